@@ -34,7 +34,13 @@ func (g *FuncGen) callCommon(cc *ssa.CallCommon, res ssa.Value, in ssa.Instructi
 		if ct := g.prog.Contracts[name]; ct != nil {
 			return g.applyContract(ct, cc.Method.Type().(*types.Signature), append([]Val{recv}, args...), true, res, in, name)
 		}
-		return g.havocCall(name, cc, append([]Val{recv}, args...), res, in)
+		pre := g.cur.clone()
+		all := append([]Val{recv}, args...)
+		rv := g.havocCall(name, cc, all, res, in)
+		g.ghostState = pre
+		g.ghostAtUncontracted(name, all, rv)
+		g.ghostState = nil
+		return rv
 	}
 	callee := cc.StaticCallee()
 	if callee == nil {
@@ -404,12 +410,65 @@ func (g *FuncGen) appendBuiltin(cc *ssa.CallCommon, res ssa.Value, in ssa.Instru
 	nh := c.fresh(cl, c.classes[cl])
 	c.assert(eq(nh, ite(fits, fmt.Sprintf("(store %s (s_arr %s) %s)", heap, s.T, inPlace), fmt.Sprintf("(store %s %s %s)", heap, newArr, grown))))
 	g.cur.heap[cl] = nh
+	// set view (a consequence of the element-wise model, stated explicitly because the witnesses are hard
+	// for the solvers to find): the elements of the result are those of s together with the appended ones.
+	// Only emitted under `option setview`, so that functions not reasoning about element sets keep small VCs.
+	if g.contract != nil && g.contract.Options["setview"] == "true" {
+		ssRes := g.sliceSetOf(nh, result, st.Elem())
+		ssOld := g.sliceSetOf(heap, s.T, st.Elem())
+		var added string
+		if k >= 0 {
+			var eqs []string
+			for j := 0; j < k; j++ {
+				ev := fmt.Sprintf("(select (select %s (s_arr %s)) %s)", heap, e.T, g.add64(fmt.Sprintf("(s_off %s)", e.T), c.intLit64(int64(j), 64)))
+				eqs = append(eqs, eq("qx", ev))
+			}
+			added = or(eqs...)
+		} else {
+			added = fmt.Sprintf("(select %s qx)", g.sliceSetOf(heap, e.T, st.Elem()))
+		}
+		c.useQuant = true
+		c.assert(fmt.Sprintf("(forall ((qx %s)) (= (select %s qx) %s))", es, ssRes, or(fmt.Sprintf("(select %s qx)", ssOld), added)))
+	}
 	// appending zero elements to a nil slice yields nil: ignored (len stays 0 either way)
 	if res == nil {
 		return nil
 	}
 	v := g.define(res, result)
 	return &v
+}
+
+// sliceSetOf returns the term for the set of elements of slice term sl read in element heap `heap`:
+// ss_<sort>(data, off, len) with data = heap[s_arr sl].  ss is uninterpreted; its intended meaning is
+// { data[off+i] | 0 <= i < len }.  The facts emitted per distinct term (membership of every element, an
+// index witness for every member, emptiness at length 0) are all true of that meaning.
+func (g *FuncGen) sliceSetOf(heap, sl string, elem types.Type) string {
+	c := g.c
+	es := c.sortOf(elem)
+	i64 := c.intSort(64)
+	fn := "ss_" + sortKey(es)
+	c.decl(fmt.Sprintf("(declare-fun %s ((Array %s %s) %s %s) (Array %s Bool))", fn, i64, es, i64, i64, es))
+	c.decl(fmt.Sprintf("(declare-fun %s_idx ((Array %s %s) %s %s %s) %s)", fn, i64, es, i64, i64, es, i64))
+	data := fmt.Sprintf("(select %s (s_arr %s))", heap, sl)
+	off := fmt.Sprintf("(s_off %s)", sl)
+	ln := fmt.Sprintf("(s_len %s)", sl)
+	t := fmt.Sprintf("(%s %s %s %s)", fn, data, off, ln)
+	if strings.Contains(t, "q_") || strings.Contains(t, "qx") {
+		return t
+	}
+	key := "ssfacts:" + t
+	if c.declared[key] {
+		return t
+	}
+	c.declared[key] = true
+	c.useQuant = true
+	zero := c.intLit64(0, 64)
+	c.assert(fmt.Sprintf("(forall ((qi %s)) (=> %s (select %s (select %s %s))))", i64,
+		and(g.le64(zero, "qi"), g.lt64("qi", ln)), t, data, g.add64(off, "qi")))
+	wi := fmt.Sprintf("(%s_idx %s %s %s qx)", fn, data, off, ln)
+	c.assert(fmt.Sprintf("(forall ((qx %s)) (! (=> (select %s qx) %s) :pattern ((select %s qx))))", es, t,
+		and(g.le64(zero, wi), g.lt64(wi, ln), eq(fmt.Sprintf("(select %s %s)", data, g.add64(off, wi)), "qx")), t))
+	return t
 }
 
 // staticVarargLen returns k if v is `slice (new [k]T)[:]`, else -1.
@@ -561,6 +620,10 @@ func (g *FuncGen) havocLocation(env *Env, e Expr) {
 	case *EField:
 		base := g.tr(env, x.X)
 		pt := derefType(base.GT)
+		if cl, gs, ok := g.ghostFieldClass(pt, x.Name); ok {
+			g.heapStore(cl, base.T, c.fresh("havoc_ghost_"+x.Name, gs))
+			return
+		}
 		st, name, ok := c.structOf(pt)
 		if !ok {
 			g.unsup("assigns %s: not a struct", e)
@@ -726,6 +789,10 @@ func (g *FuncGen) frameLocs() map[string][]frameLoc {
 			switch e := a.(type) {
 			case *EField:
 				base := g.tr(env, e.X)
+				if cl, _, ok := g.ghostFieldClass(derefType(base.GT), e.Name); ok {
+					allowed[cl] = append(allowed[cl], loc{ref: base.T})
+					continue
+				}
 				st, name, ok := c.structOf(derefType(base.GT))
 				if !ok {
 					g.unsup("assigns %s", a)
@@ -1006,6 +1073,15 @@ func (g *FuncGen) callWrites(cc *ssa.CallCommon) ([]string, bool) {
 		switch e := a.(type) {
 		case *EField:
 			bt := g.staticTypeOf(e.X, typeOf, calleePkg)
+			if bt != nil {
+				if cl, _, ok := g.ghostFieldClass(derefType(bt), e.Name); ok {
+					classes = append(classes, cl)
+					continue
+				}
+			}
+			if bt == nil {
+				return nil, true
+			}
 			st, sn, ok := c.structOf(derefType(bt))
 			if !ok {
 				return nil, true
@@ -1137,6 +1213,25 @@ func (g *FuncGen) runGhostAt(callee string, ord int, env *Env, results []Val) {
 			switch st.Kind {
 			case "set":
 				v := g.tr(env, st.E)
+				if strings.Contains(st.Var, ".") {
+					// assignment to a ghost field: obj.field = value
+					le, err := ParseExpr(st.Var)
+					fe, isField := le.(*EField)
+					if err != nil || !isField {
+						g.unsup("bad ghost assignment target %s", st.Var)
+					}
+					base := g.tr(env, fe.X)
+					cl, gs, ok := g.ghostFieldClass(derefType(base.GT), fe.Name)
+					if !ok {
+						g.unsup("ghost assignment to %s: no such ghost field", st.Var)
+					}
+					v = g.coerceTo2(v, gs, nil)
+					if v.S != gs {
+						g.unsup("ghost field %s has sort %s, assigned %s", st.Var, gs, v.S)
+					}
+					g.heapStore(cl, base.T, v.T)
+					continue
+				}
 				gv, declared := g.prog.Ghosts[st.Var]
 				if !declared {
 					g.unsup("ghost statement assigns undeclared ghost variable %s", st.Var)
